@@ -94,7 +94,12 @@ package asn1
 //@   ensures result <==> ((0x30 <= b && b <= 0x39) || b == 0x20)
 //@   terminates
 
+// X.680 41.4: the PrintableString character set is A-Z a-z 0-9 space ' ( ) + , - . / : = ?
+// ('*' and '&' are accepted on request, "reflecting existing practice").
+//@ pred printableChar(b) = ('a' <= b && b <= 'z') || ('A' <= b && b <= 'Z') || ('0' <= b && b <= '9') || b == ' ' || b == '\'' || b == '(' || b == ')' || b == '+' || b == ',' || b == '-' || b == '.' || b == '/' || b == ':' || b == '=' || b == '?'
 //@ func isPrintable
+//@   ensures [charset] result <==> printableChar(b) || (bool(asterisk) && b == '*') || (bool(ampersand) && b == '&')
+//@   modifies nothing
 //@   terminates
 
 //@ func parseNumericString
